@@ -95,6 +95,9 @@ example : ResInv ({ now := 0, resources := #[{ kind := .resource, capacity := so
       simp [Array.getD, show ¬ r < 1 by omega]
     rw [this]; simp [default]
 
+section ConserveBlock
+open Conserve
+
 /-! ## ===== b-conserve: global queue-order theorems (whole runs, every program) — BEGIN =====
 
 Vocabulary (`Lemmas/Conserve*.lean`).  A request event is *granted* exactly when it is triggered (`out ≠ none`).
@@ -188,5 +191,6 @@ example : rankLt ExPrio.s1 true 4 3 := by
   unfold rankLt; simp only [if_true]; left; decide +kernel
 
 /-! ## ===== b-conserve — END ===== -/
+end ConserveBlock
 
 end C06
